@@ -202,21 +202,50 @@ fn hang_limit() -> Duration {
     )
 }
 
-/// A plan that does not finish within the limit is a hang: the process exits with a
-/// distinguished code and the parent reports the plan (it cannot be interrupted otherwise).
+/// CPU seconds (user + system) consumed by this process so far.
+fn process_cpu_seconds() -> Option<f64> {
+    let stat = std::fs::read_to_string("/proc/self/stat").ok()?;
+    // fields after the closing parenthesis of the command name
+    let rest = &stat[stat.rfind(')')? + 2..];
+    let f: Vec<&str> = rest.split_whitespace().collect();
+    let utime: f64 = f.get(11)?.parse().ok()?;
+    let stime: f64 = f.get(12)?.parse().ok()?;
+    Some((utime + stime) / 100.0)
+}
+
+/// A plan that burns more than the limit of CPU time without finishing is a hang: the
+/// process exits with a distinguished code and the parent reports the plan (it cannot be
+/// interrupted otherwise). CPU time, not wall-clock time, so that a starved machine is not
+/// mistaken for a hang; a wall-clock backstop of 20x the limit covers a blocked process.
 fn start_watchdog() {
     let limit = hang_limit();
     std::thread::spawn(move || {
         let mut last = HEARTBEAT.load(std::sync::atomic::Ordering::Relaxed);
         let mut since = Instant::now();
+        let mut cpu_at = process_cpu_seconds();
         loop {
             std::thread::sleep(Duration::from_millis(250));
             let now = HEARTBEAT.load(std::sync::atomic::Ordering::Relaxed);
             if now != last {
                 last = now;
                 since = Instant::now();
-            } else if since.elapsed() > limit {
-                eprintln!("[watchdog] one plan has been running for more than {:?}", limit);
+                cpu_at = process_cpu_seconds();
+                continue;
+            }
+            let burnt = match (cpu_at, process_cpu_seconds()) {
+                (Some(a), Some(b)) => Some(b - a),
+                _ => None,
+            };
+            let hung = match burnt {
+                Some(c) => c > limit.as_secs_f64() || since.elapsed() > limit * 20,
+                None => since.elapsed() > limit * 3,
+            };
+            if hung {
+                eprintln!(
+                    "[watchdog] one plan has consumed {:?} CPU seconds ({:?} wall) without finishing",
+                    burnt,
+                    since.elapsed()
+                );
                 std::process::exit(HANG_EXIT);
             }
         }
